@@ -105,6 +105,10 @@ func Build(s Skel, next func() geom.Point) geom.Geom {
 		return next()
 	case KBounds:
 		a, b := next(), next()
+		if s.N == -1 {
+			// an inverted box (Max below Min: Empty() is true) with finite corners
+			return &geom.Bounds{Min: b, Max: a}
+		}
 		return &geom.Bounds{Min: a, Max: b}
 	case KMultiPoint:
 		return geom.MultiPoint(pts(s.N))
